@@ -287,7 +287,9 @@ def run(ctx):
         if rng.random() < 0.25:
             # a sheet whose name starts with the name of another one (the
             # shorter one may be ignored, the longer one carries the names)
-            pair = rng.choice([['Sheet10', 'Sheet1'], ['Data2', 'Data']])
+            pair = rng.choice([['Sheet10', 'Sheet1'], ['Data2', 'Data'],
+                               # distinct names with the same case-folded form
+                               ['Stra\u00dfe', 'Strasse'], ['\ufb01t', 'fit']])
             sheets = pair + [x for x in sheets if x not in pair][:2]
             ctx.event('prefix_named_sheets')
         date1904 = rng.random() < 0.2
@@ -300,7 +302,11 @@ def run(ctx):
             filled = [k for k in sp.expect if k[0] == s0 and k[1] <= 3]
             if filled:
                 k = rng.choice(filled)
-                sp.names['NmCell'] = ('ref', s0, k[1], k[2], True, True)
+                fl_ = rng.choice([(True, True), (True, False), (False, True),
+                                  (False, False)])
+                sp.names['NmCell'] = ('ref', s0, k[1], k[2]) + fl_
+                if fl_ != (True, True):
+                    ctx.event('names_with_mixed_references')
             sp.names['NmRange'] = ('rng', s0, 1, 1, 2, 3, (True,) * 4)
             # a name bound to a FORMULA cell that carries no cached result (as
             # files written by other programs than Excel have them), and a
